@@ -1,6 +1,7 @@
 (* C04 -- root chain integrity over arbitrary histories of offered updates. Property theorems only. *)
 From CCT Require Import Prelude Hex Num Time Formats Json Auth.
-From CCT.proofs Require Import HexFacts SigFacts AuthFacts SignableFacts DelegationFacts RootFacts.
+From CCT.Gen Require Pins.
+From CCT.proofs Require Import HexFacts SigFacts AuthFacts SignableFacts DelegationFacts RootFacts ChainFacts.
 Open Scope N_scope.
 
 (* a client that replaces its root only by accepted offers holds a root reached from the initial one
@@ -27,8 +28,94 @@ Theorem C04_verdict_history_free : forall ed_verify sha256 t0 us1 us2 u,
   accepts ed_verify sha256 (run ed_verify sha256 t0 us1) u = accepts ed_verify sha256 (run ed_verify sha256 t0 us2) u.
 Proof. exact verdict_history_free. Qed.
 
+(* a party that cannot produce valid signatures for a threshold of the root keys in force cannot change the client's root:
+   only_signs_with S u = every entry of u that is a valid OpenPGP-mode signature over u's payload is filed under a key of S
+   (no forgery for keys the party does not hold); below_threshold S t = fewer keys of S among t's root keys than t's root
+   threshold.  For any number of offers, at any state. *)
+Theorem C04_below_threshold_rejected : forall ed_verify sha256 S t u,
+  below_threshold S t -> only_signs_with ed_verify sha256 S u -> distinct_entries u ->
+  verify_root ed_verify sha256 t u <> Ok tt.
+Proof. exact below_threshold_rejected. Qed.
+
+Theorem C04_powerless_parties_never_move_the_root : forall ed_verify sha256 S t0 us,
+  below_threshold S t0 ->
+  Forall (fun u => only_signs_with ed_verify sha256 S u /\ distinct_entries u) us ->
+  run ed_verify sha256 t0 us = t0.
+Proof. exact powerless_parties_never_move_the_root. Qed.
+
+Theorem C04_powerless_offer_is_a_noop : forall ed_verify sha256 S t u,
+  below_threshold S t -> only_signs_with ed_verify sha256 S u -> distinct_entries u ->
+  offer ed_verify sha256 t u = t.
+Proof. exact powerless_offer_is_a_noop. Qed.
+
+(* non-vacuity: a root with two root keys and threshold 2; a party holding one of them is below the threshold,
+   a party holding both is not *)
+Definition ex_k (c : N) := VStr (repeat c 64).
+Definition ex_rule (th : Z) (ks : list pv) := VDict [(VStr (U"pubkeys"), VList ks); (VStr (U"threshold"), VInt th)].
+Definition ex_root := VDict [(VStr (U"signatures"), VDict []);
+  (VStr (U"signed"), VDict [(VStr (U"type"), VStr (U"root")); (VStr (U"version"), VInt 1); (VStr (U"metadata_spec_version"), VStr (U"0.6.0"));
+                            (VStr (U"expiration"), VStr (U"2030-01-01T00:00:00Z"));
+                            (VStr (U"delegations"), VDict [(VStr (U"root"), ex_rule 2 [ex_k 97; ex_k 98]); (VStr (U"key_mgr"), ex_rule 1 [ex_k 99])])])].
+Example C04_witness :
+  below_threshold [repeat 97 64] ex_root /\ below_threshold [repeat 97 64; repeat 99 64] ex_root
+  /\ ~ below_threshold [repeat 97 64; repeat 98 64] ex_root.
+Proof.
+  assert (V : view ex_root = Ok {| rv_type := VStr (U"root"); rv_keys := VList [ex_k 97; ex_k 98]; rv_threshold := VInt 2; rv_version := VInt 1 |}) by (vm_compute; reflexivity).
+  split; [|split].
+  - eexists _, _, _. split; [exact V|]. split; [reflexivity|]. split; [reflexivity|]. vm_compute. reflexivity.
+  - eexists _, _, _. split; [exact V|]. split; [reflexivity|]. split; [reflexivity|]. vm_compute. reflexivity.
+  - intros (tv & kl & tz & V' & Ek & Et & H). rewrite V in V'. injection V' as <-. cbn [rv_keys rv_threshold] in Ek, Et.
+    injection Ek as <-. injection Et as <-. revert H. vm_compute. intros H. discriminate H.
+Qed.
+
+(* BEGIN SOURCE PINS -- written by harness/mkpins.py; the list is what Gen/Pins.v held for the tree the model was validated against *)
+(* the functions of the package this property depends on (call-graph closure of its entry points), each with the fingerprint of its
+   logic (AST without docstrings, annotations, messages, local names): the model and the correspondence runs were validated against
+   exactly these; a change of logic in any of them breaks this obligation and the check then searches for a failing input *)
+Theorem C04_source_pinned : CCT.Gen.Pins.pinned_C04 =
+  [(U"authentication._ascii", U"5f6fc6aad21f14d47c4f");
+   (U"authentication.verify_gpg_signature", U"ccbe2bc800d02410d16b");
+   (U"authentication.verify_root", U"6692242951185dc7604b");
+   (U"authentication.verify_signable", U"1bd56f9b4f5e7bcd88d9");
+   (U"authentication.verify_signature", U"7e0a2d567df7e9f0cdd4");
+   (U"common.MixinKey.from_hex", U"a6e4e81c0b16461490a5");
+   (U"common.PrivateKey.from_bytes", U"2cb488fc935b61f65bba");
+   (U"common.PublicKey.from_bytes", U"a439db0d070397bc2b47");
+   (U"common.canonserialize", U"64fc1dee1d7349d7a920");
+   (U"common.checkformat_any_signature", U"82ba0ed515a770fad8a9");
+   (U"common.checkformat_byteslike", U"1c9da61d15ff3a1a9f97");
+   (U"common.checkformat_delegating_metadata", U"b013c9fa5677f3b3f637");
+   (U"common.checkformat_delegation", U"25fc9c6692b07cdca131");
+   (U"common.checkformat_delegations", U"d6a7d445f5f827a1471c");
+   (U"common.checkformat_gpg_fingerprint", U"86e3bb7e4431fb481dc5");
+   (U"common.checkformat_gpg_signature", U"a3c5515ffb8c9f6183ba");
+   (U"common.checkformat_hex_key", U"625afdf8f56eb4c97143");
+   (U"common.checkformat_hex_string", U"eac17f8be3d488d4b8a0");
+   (U"common.checkformat_key", U"d3466826154e389f099e");
+   (U"common.checkformat_list_of_hex_keys", U"4c9121b74cf062a7e2fd");
+   (U"common.checkformat_natural_int", U"14f9984b8b7ef6014787");
+   (U"common.checkformat_signable", U"dbb8b00a3a3727e018da");
+   (U"common.checkformat_signature", U"d544854022da28dcc399");
+   (U"common.checkformat_string", U"a139d0a4113d71e93d9f");
+   (U"common.checkformat_utc_isoformat", U"6fed4a2332e7258f7147");
+   (U"common.is_gpg_signature", U"f236e9c50126a7909e84");
+   (U"common.is_hex_key", U"63c7822022cd24f926e2");
+   (U"common.is_hex_signature", U"433f44075f931ec629d6");
+   (U"common.is_hex_string", U"35e6d253e0c21ac09fca");
+   (U"common.is_signable", U"6932517519189d75eb93");
+   (U"common.is_signature", U"cc04b1fcfd687d0beea7");
+   (U"common.load_metadata_from_file", U"f65eb5087b9ad786f4ff");
+   (U"common.write_metadata_to_file", U"7e7340650f276f577b2b")].
+Proof. reflexivity. Qed.
+(* END SOURCE PINS *)
+
 Print Assumptions C04_chain_integrity.
 Print Assumptions C04_version_counts_accepts.
 Print Assumptions C04_only_successor_accepted.
 Print Assumptions C04_no_replay_no_rollback.
 Print Assumptions C04_verdict_history_free.
+Print Assumptions C04_below_threshold_rejected.
+Print Assumptions C04_powerless_parties_never_move_the_root.
+Print Assumptions C04_powerless_offer_is_a_noop.
+Print Assumptions C04_witness.
+Print Assumptions C04_source_pinned.
